@@ -6,8 +6,8 @@
      export_build / export_keep / export_run    src/plugins/export.rs
    [matches : flt -> M -> bool] (Filter::matches, property C11) and the message type [M] are arbitrary.
    A filter [flt] carries kind, enabled flag and an opaque id. *)
-From Coq Require Import List NArith Bool Permutation.
-From AdltV Require Import Base.Obs Base.Res Base.MachInt Filter.Sets Filter.SetsProofs Exec.C12.
+From Coq Require Import List NArith Bool Permutation Lia.
+From AdltV Require Import Base.Obs Base.Res Base.MachInt Filter.Sets Filter.SetsProofs Exec.C12 Filter.SetsExecProofs.
 Import ListNotations.
 Open Scope N_scope.
 
@@ -211,14 +211,28 @@ Proof. vm_compute. repeat split. Qed.
 Lemma lc_filter_case_negative c l : f_enabled (lc_filter_case c l) = true /\ f_kind (lc_filter_case c l) = Negative.
 Proof. split; reflexivity. Qed.
 
+(* ... and [matches_case] gives the plugin's own lifecycle filters exactly their meaning (u32 lifecycle ids): the
+   filter built for the list l matches the messages whose lifecycle is NOT in l; configured filters are looked
+   up in the exported truth table of the real matcher *)
+Theorem C12_exec_matcher_meaning c :
+  (forall l m, Forall (fun x => x <= u32max) l ->
+     matches_case c (lc_filter_case c l) m = negb (memN (nth (N.to_nat m) (k_lcs c) 0) l)) /\
+  (forall f m, f_id f < N.of_nat (length (k_filters c)) ->
+     matches_case c f m = tab (map (fun x => snd x) (k_filters c)) false (f_id f) m).
+Proof.
+  split; [|exact (matches_case_configured c)].
+  intros l m H. apply matches_case_lc_filter. eapply Forall_impl; [|exact H].
+  intros x Hx. unfold u32max in Hx. change lc_base with 8589934592. cbn in Hx. lia.
+Qed.
+
 (* non-vacuity of the lifecycle part: three entries to keep, lifecycles 0 and 2 are found (in that order), 1 is
    not; one configured negative filter vetoes messages 1, 3, 5: written = [0; 4], exported lifecycles [0; 2] *)
 Example C12_export_lifecycles_nonvacuous :
   let c := mkCase [(1, true, [false; true; false; true; false; true])] 6 None 0 1073741824 true None None
                   [0; 1000; 2000; 3000; 4000; 5000] 3 true [0; 0; 1; 1; 2; 2] [true; true; true; true; true; true]
                   [[false; false; false; false; true; true]; [false; false; false; false; false; false];
-                   [true; true; false; false; false; false]] in
-  exists r, run_C12 c = T [fst r; fst (snd r); snd (snd r); T [T [L 0; L 4]; L 2; L 6; T [L 0; L 2]]].
+                   [true; true; false; false; false; false]] false in
+  exists r, run_C12 c = T [fst r; fst (snd r); snd (snd r); T [T [L 0; L 4]; L 2; L 6; T [L 0; L 2]]; T []].
 Proof. cbv zeta. eexists (_, (_, _)). vm_compute. reflexivity. Qed.
 
 Print Assumptions C12_keep_rule_meaning.
@@ -236,6 +250,7 @@ Print Assumptions C12_export_spec.
 Print Assumptions C12_export_lifecycles_spec.
 Print Assumptions C12_export_lifecycles_monotone.
 Print Assumptions C12_export_no_lifecycles.
+Print Assumptions C12_exec_matcher_meaning.
 Print Assumptions C12_enabled_test_in_constructor_needed.
 Print Assumptions C12_nonvacuous.
 Print Assumptions C12_export_lifecycles_nonvacuous.
